@@ -91,7 +91,7 @@ func c08R2(p *Prog, r *Report) {
 				"live user map changed with ManagedServer.mu "+states[cs.V].String()+": two concurrent operations can reach the live maps in the opposite order to the cache, leaving a deleted or rotated key accepted (or a listed key refused)")
 			// callbacks: no calls except builtins
 			for _, arg := range cs.Call.Args {
-				if lit, ok := ast.Unparen(arg).(*ast.FuncLit); ok {
+				if lit, ok := ast.Unparen(fc.Resolve(arg)).(*ast.FuncLit); ok {
 					lc := p.LitCtx(fc, lit)
 					bad := ""
 					for _, c2 := range lc.AllCalls() {
